@@ -10,6 +10,7 @@ import (
 	"fmt"
 	"io"
 	"log"
+	"strings"
 	"time"
 
 	"github.com/Comcast/sheens/core"
@@ -151,8 +152,8 @@ func (s *sessionSpec) session() *expect.Session {
 
 func Run(cfg fw.Config, rec *fw.Rec) {
 	log.SetOutput(io.Discard)
-	rec.Rule = "sessions of 1-3 steps, 0-3 expected outputs per step over 6 patterns, inverted outputs, guards {none, accept, reject, accept-if}, run with /bin/cat as the subprocess so that the emitted stream is exactly the session's inputs (duplicates of one expected message while another never arrives, never-arriving messages with 120 ms timeouts, non-JSON noise); a third of the passing sessions are run a second time - their outputs now carry recorded bindings - on a stream that meets no expectation and must fail; oracle: Run()==nil implies the reference window model justifies a pass under some resolution; non-trivial = session with >= 2 expected outputs in some step that the tool passed, or any session the tool failed; distinct by session"
-	rec.Required = []string{"tool_passed_and_justified", "tool_failed", "family_duplicate_instead_of_other", "family_rejecting_guard", "family_inverted", "family_never_arrives", "family_noise", "rerun_with_recorded_bindings_failed_as_it_must"}
+	rec.Rule = "sessions of 1-3 steps, 0-3 expected outputs per step over 6 patterns, inverted outputs, guards {none, accept, reject, accept-if}, run with /bin/cat as the subprocess so that the emitted stream is exactly the session's inputs (duplicates of one expected message while another never arrives, never-arriving messages with 120 ms timeouts, non-JSON noise, messages and noise lines of 4080-70000 bytes around the 4096-byte buffer boundaries); a third of the passing sessions are run a second time - their outputs now carry recorded bindings - on a stream that meets no expectation and must fail; oracle: Run()==nil implies the reference window model justifies a pass under some resolution; non-trivial = session with >= 2 expected outputs in some step that the tool passed, or any session the tool failed; distinct by session"
+	rec.Required = []string{"tool_passed_and_justified", "tool_failed", "family_duplicate_instead_of_other", "family_rejecting_guard", "family_inverted", "family_never_arrives", "family_noise", "family_long_lines", "rerun_with_recorded_bindings_failed_as_it_must"}
 	rec.Assume = []string{"slowness can only turn a pass into a timeout failure, never the reverse, so load cannot cause a false alarm", "the reference is at least as permissive as the documentation: windows may extend into later steps' lines, a step without positive expectations may or may not consume a line"}
 	n := cfg.Pick(1500, 20000)
 	fw.Parallel(cfg.Workers, n, func(w, i int) {
@@ -183,6 +184,26 @@ func Run(cfg fw.Config, rec *fw.Rec) {
 			s.Steps = []stepSpec{{Inputs: []string{`{"b":1}`, `{"a":1}`}, Outputs: []outSpec{{Pattern: `{"a":"?x"}`, Guard: "none"}, {Pattern: `{"b":"?y"}`, Guard: "none", Inverted: true}}}}
 			if r.Intn(2) == 0 {
 				s.Steps[0].Inputs = []string{`{"a":1,"b":2}`}
+			}
+		case 3:
+			// lines longer than a reader's buffer (4096 bytes is bufio's default): a long
+			// message is one message, and a long noise line is noise whatever its tail says
+			family = "long_lines"
+			lens := []int{4080, 4089, 4090, 4095, 4096, 4097, 5000, 8185, 8192, 8200, 20000, 70000}
+			pad := func(n int, c string) string { return strings.Repeat(c, n) }
+			n := lens[r.Intn(len(lens))]
+			switch r.Intn(4) {
+			case 0: // a forbidden message that is long
+				s.Steps = []stepSpec{{Inputs: []string{`{"b":1,"pad":"` + pad(n, "x") + `"}`, `{"a":1}`},
+					Outputs: []outSpec{{Pattern: `{"a":"?x"}`, Guard: "none"}, {Pattern: `{"b":"?y"}`, Guard: "none", Inverted: true}}}}
+			case 1: // noise whose tail, cut at a buffer boundary, would be a message
+				k := []int{4096, 8192, 4096 * 3}[r.Intn(3)]
+				s.Steps = []stepSpec{{Inputs: []string{pad(k, "#") + `{"a":1}`, `{"d":4}`}, Outputs: []outSpec{{Pattern: `{"a":"?x"}`, Guard: "none"}}}}
+			case 2: // the same with the tail anywhere
+				s.Steps = []stepSpec{{Inputs: []string{pad(n, "#") + `{"a":1}`}, Outputs: []outSpec{{Pattern: `{"a":"?x"}`, Guard: "none"}}}}
+			default: // a long message that is expected, and a long one that is forbidden after it
+				s.Steps = []stepSpec{{Inputs: []string{`{"a":1,"pad":"` + pad(n, "y") + `"}`}, Outputs: []outSpec{{Pattern: `{"a":"?x"}`, Guard: "none"}}},
+					{Inputs: []string{`{"pad":"` + pad(n, "z") + `","b":2}`, `{"c":3}`}, Outputs: []outSpec{{Pattern: `{"c":"?z"}`, Guard: "none"}, {Pattern: `{"b":"?y"}`, Guard: "none", Inverted: true}}}}
 			}
 		default:
 			ns := 1 + r.Intn(3)
@@ -219,7 +240,7 @@ func Run(cfg fw.Config, rec *fw.Rec) {
 		// Leftovers: the outputs of a session that has been run keep the bindings that were
 		// recorded ("bs"), and a session file can carry them too.  Run the same Session again
 		// with inputs that cannot satisfy it: it must not pass.
-		if err == nil && i%3 == 0 {
+		if err == nil && i%6 >= 4 {
 			for k := range sess.IOs {
 				sess.IOs[k].Inputs = []interface{}{`{"unrelated":1}`, `noise`, `{"unrelated":2}`}
 			}
